@@ -147,9 +147,15 @@ async def _run(sc: dict, holder: dict | None = None) -> dict:
         if t.k not in dead:
             def _announce() -> None:
                 if not t.closed:
+                    R.rec(e="TpAnn", n=t.k)
                     loop.call_soon(lambda: protocol.connection_made(t, ramses=True))
             loop.call_later(sig, _announce)
-        await protocol.wait_for_connection_made(timeout=_DEFAULT_TIMEOUT_PORT)
+        try:
+            await protocol.wait_for_connection_made(timeout=_DEFAULT_TIMEOUT_PORT)
+        except BaseException as err:  # noqa: BLE001
+            R.rec(e="FactoryRet", k="err", s=type(err).__name__)
+            raise
+        R.rec(e="FactoryRet", k="ok")
         return t
 
     # linearisation points of the two protocol callbacks
@@ -296,8 +302,8 @@ async def _run(sc: dict, holder: dict | None = None) -> dict:
             if t is None or t.closed:
                 return
             t.closed = True
-            R.rec(e="TpDied", n=t.k)
             why = e.get("why")
+            R.rec(e="TpDied", n=t.k, a=1 if why == "transport" else 0)
             err = exc.TransportError("the port was closed") if why == "transport" else None
             loop.call_soon(lambda: proto.connection_lost(err))
         elif ev == "fail_write":
@@ -381,7 +387,8 @@ async def _run(sc: dict, holder: dict | None = None) -> dict:
     gc.collect()
     await vloop.drain(2)
     R.rec(e="End", k=type(ctx.state).__name__)
-    return {"echo_to": tu(ctx.echo_timeout), "rply_to": tu(ctx.reply_timeout), "untimed": 0, "ev": R.ev}
+    return {"echo_to": tu(ctx.echo_timeout), "rply_to": tu(ctx.reply_timeout), "untimed": 0, "ev": R.ev,
+            "dead": sorted(dead)}
 
 
 def run_scenario(sc: dict, stuck_s: float = 10.0) -> dict:
@@ -413,7 +420,8 @@ def run_scenario(sc: dict, stuck_s: float = 10.0) -> dict:
                 raise
             R = holder["R"]
             ctx = holder["ctx"]
-            return {"echo_to": tu(ctx.echo_timeout), "rply_to": tu(ctx.reply_timeout), "untimed": 0, "ev": R.ev}
+            return {"echo_to": tu(ctx.echo_timeout), "rply_to": tu(ctx.reply_timeout), "untimed": 0, "ev": R.ev,
+                    "dead": sorted(sc.get("dead", []))}
     finally:
         signal.setitimer(signal.ITIMER_REAL, 0)
         signal.signal(signal.SIGALRM, old)
